@@ -55,14 +55,17 @@ type Op struct {
 }
 
 type Workload struct {
-	Name      string
-	Ops       []Op
-	Model     bool // compared with the Lean model point by point (canonical schedule enforced)
-	Free      bool // no schedule enforcement: goroutines interleave freely (property predicate only)
-	SaveFirst bool // adversarial schedule: a block write waits until a snapshot that has begun is complete
-	Shape     string
-	MaxDat    uint64 // wide.go: BlockDBOpts.MaxDataFileSize of every process of this workload (0 = one data file)
-	Wide      string // wide.go: "" | "failed-reorg" | "save-race" | "rollover"
+	Name       string
+	Ops        []Op
+	Model      bool // compared with the Lean model point by point (canonical schedule enforced)
+	Free       bool // no schedule enforcement: goroutines interleave freely (property predicate only)
+	SaveFirst  bool // adversarial schedule: a block write waits until a snapshot that has begun is complete
+	Shape      string
+	MaxDat     uint64 // wide.go: BlockDBOpts.MaxDataFileSize of every process of this workload (0 = one data file)
+	Wide       string // wide.go: "" | "failed-reorg" | "save-race" | "rollover" | "bulk" (bulk.go)
+	BulkN      int    // bulk.go: number of blocks queued without an Idle
+	BulkStride int    // bulk.go: sampling stride of the captures inside the flush
+	BulkEvery  int    // bulk.go: after the flush every BulkEvery-th hit is captured (≤ 1 = all)
 }
 
 func blk(name, parent string, nout int, spend ...string) Op {
@@ -370,10 +373,11 @@ func (r *Ref) isAncestorOrEqual(a, b string) bool {
 type Hit struct {
 	N      int    `json:"n"`
 	Name   string `json:"point"`
-	Idx    int    `json:"hit"`  // per-name hit count (1-based)
-	OpIdx  int    `json:"op"`   // workload op during which the point fired
-	NSub   int    `json:"nsub"` // blocks submitted (started) so far
-	SnapOK string `json:"snap"` // tip of the last COMPLETED snapshot at that instant
+	Idx    int    `json:"hit"`              // per-name hit count (1-based)
+	OpIdx  int    `json:"op"`               // workload op during which the point fired
+	NSub   int    `json:"nsub"`             // blocks submitted (started) so far
+	SnapOK string `json:"snap"`             // tip of the last COMPLETED snapshot at that instant
+	NoCopy bool   `json:"nocopy,omitempty"` // bulk workloads: the directory was not captured at this hit (sampling, see bulk.go)
 }
 
 type Sched struct {
@@ -403,6 +407,7 @@ type Sched struct {
 	started   int                    // snapshots started by Chain.Idle / Chain.Close so far
 	onlyPoint string                 // replay of a free-running workload: copy the hit with this point name and per-name index
 	onlyPIdx  int
+	copySel   func(name string) bool // bulk.go (called with s.mu held): capture the directory at this hit? nil = at every hit
 }
 
 func newSched(dir, snaps string, enforce bool) *Sched {
@@ -469,7 +474,10 @@ func (s *Sched) point(name string) {
 	case "utxo.commit:undo-renamed":
 		s.undoDone++
 	}
-	if (s.onlyPoint != "" && s.onlyPoint == name && s.onlyPIdx == s.cnt[name]) || (s.onlyPoint == "" && (s.only == 0 || s.only == n)) {
+	sampled := s.onlyPoint == "" && s.only == 0 && s.copySel != nil
+	if sampled && !s.copySel(name) {
+		s.hits[n-1].NoCopy = true
+	} else if (s.onlyPoint != "" && s.onlyPoint == name && s.onlyPIdx == s.cnt[name]) || (s.onlyPoint == "" && (s.only == 0 || s.only == n)) {
 		if err := copyTree(s.dir, fmt.Sprintf("%s/%04d/", s.snaps, n)); err != nil && s.copyErr == nil {
 			s.copyErr = err
 		}
@@ -538,6 +546,12 @@ func copyTree(src, dst string) error {
 	return nil
 }
 
+// notCrashPoint: schedule-perturbation points of other properties (inside worker goroutines, before the in-memory mutation of an
+// undo) that do not lie between two file-system effects - no directory state of their own
+func notCrashPoint(name string) bool {
+	return strings.Contains(name, ".worker:") || name == "utxo.undo:before-mutation"
+}
+
 // ------------------------------------------------------------------------------------------ running one workload
 
 type WlRun struct {
@@ -574,9 +588,12 @@ func runWorkload(root string, base *Base, w Workload, only int) *WlRun {
 	s.snapTip = base.Tip
 	s.onlyPoint, s.onlyPIdx = onlyPoint, onlyPIdx
 	wx := &wideCtx{s: s, wr: wr, w: w}
+	if w.Wide == "bulk" {
+		s.copySel = bulkSelector(s, w)
+	}
 	vhook.Set(func(name string) {
-		if name == "utxo.save.file:renamed" {
-			// the snapshot that has just been renamed is the one of the tip at utxo.save:begin
+		if notCrashPoint(name) {
+			return
 		}
 		s.point(name)
 	})
@@ -715,7 +732,14 @@ func runWorkload(root string, base *Base, w Workload, only int) *WlRun {
 
 // ------------------------------------------------------------------------------------------ children
 
+// truncWatchdog: a child that re-opens a directory with a cut snapshot file has nothing slow to do
+const truncWatchdog = 20 * time.Second
+
 func runChild(mode, dir, blocks string) *ChildRes {
+	return runChildT(mode, dir, blocks, 60*time.Second)
+}
+
+func runChildT(mode, dir, blocks string, watchdog time.Duration) *ChildRes {
 	rf := strings.TrimRight(dir, "/") + "." + mode + ".json"
 	os.Remove(rf)
 	cmd := exec.Command(os.Args[0], "-child", mode, dir, blocks, fmt.Sprint(genesisTime), rf)
@@ -727,7 +751,7 @@ func runChild(mode, dir, blocks string) *ChildRes {
 	var werr error
 	select {
 	case werr = <-done:
-	case <-time.After(60 * time.Second):
+	case <-time.After(watchdog):
 		cmd.Process.Kill()
 		werr = fmt.Errorf("timeout (hung)")
 	}
